@@ -185,6 +185,27 @@ func impl(in hv.Val) hv.Val {
 				backend.VerifC03SetConnNum(b, int(hv.AsInt(op[3])))
 			}
 			out = append(out, hv.L{})
+		case 3: // BalanceGslb.Reload(gslb conf)
+			ng := gslb_conf.GslbClusterConf{}
+			for _, e := range hv.AsList(op[1]) {
+				p := hv.AsList(e)
+				ng[hv.AsStr(p[0])] = int(hv.AsInt(p[1]))
+			}
+			bal.Reload(ng)
+			out = append(out, hv.L{})
+		case 4: // BalanceGslb.BackendReload for one sub-cluster
+			name := hv.AsStr(op[1])
+			conf := cluster_table_conf.SubClusterBackend{}
+			for _, bv := range hv.AsList(op[2]) {
+				b := hv.AsList(bv)
+				id, w := int(hv.AsInt(b[0])), int(hv.AsInt(b[1]))
+				bn := fmt.Sprintf("%s-%d", name, id)
+				addr := "10.0.0.1"
+				port := 1000 + id
+				conf = append(conf, &cluster_table_conf.BackendConf{Name: &bn, Addr: &addr, Port: &port, Weight: &w})
+			}
+			bal.BackendReload(cluster_table_conf.ClusterBackend{name: conf})
+			out = append(out, hv.L{})
 		default:
 			panic("bad op")
 		}
@@ -314,9 +335,153 @@ func gen9(r *hv.Rng) (string, hv.Val) {
 	return class, hv.L{hv.I(9), hv.I(wlc), init, ops}
 }
 
+// reload histories: Init, Balance calls, then BalanceGslb.Reload steps (weights changed, sub-clusters removed, NEW
+// sub-clusters whose names sort before / between / after the kept ones, often leaving exactly one positive weight =
+// single mode), new sub-clusters populated by BackendReload one backend at a time, Balance calls after every step
+func genReload(r *hv.Rng) (string, hv.Val) {
+	pool := []string{"a.sub", "b.sub", "c.sub", "d.sub", "GSLB_BLACKHOLE", "0.sub", "zz"}
+	mode := r.Intn(3)
+	rmax := r.Range(0, 2)
+	cross := r.Range(0, 1)
+	type sc struct {
+		name string
+		w    int
+		ids  []int
+	}
+	var cur []sc
+	has := func(n string) bool {
+		for _, s := range cur {
+			if s.name == n {
+				return true
+			}
+		}
+		return false
+	}
+	subs := hv.L{}
+	ns := r.Range(1, 3)
+	for len(cur) < ns {
+		nm := pool[r.Intn(len(pool))]
+		if has(nm) {
+			continue
+		}
+		w := 0
+		if len(cur) == 0 || r.Bool() {
+			w = r.Range(1, 100)
+		}
+		nb := r.Range(1, 3)
+		bl := hv.L{}
+		s := sc{name: nm, w: w}
+		for k := 0; k < nb; k++ {
+			bl = append(bl, hv.L{hv.I(k), hv.I(r.Range(1, 3))})
+			s.ids = append(s.ids, k)
+		}
+		subs = append(subs, hv.L{hv.S(nm), hv.I(w), bl})
+		cur = append(cur, s)
+	}
+	ops := hv.L{}
+	bal := func(k int) {
+		for j := 0; j < k; j++ {
+			key := r.Bytes(16)
+			retry := 0
+			if r.Chance(1, 5) {
+				retry = r.Range(0, rmax+cross+1)
+			}
+			ops = append(ops, hv.L{hv.I(0), hv.I(retry), hv.U(murmur3.Sum64(key)), hv.B(key)})
+		}
+	}
+	bal(r.Range(1, 3))
+	steps := r.Range(1, 3)
+	class := "reload"
+	for st := 0; st < steps; st++ {
+		var next []sc
+		// keep / drop / re-weight
+		for _, s := range cur {
+			if len(cur) > 1 && r.Chance(1, 5) {
+				continue
+			}
+			s.w = 0
+			next = append(next, s)
+		}
+		if len(next) == 0 {
+			k := cur[0]
+			k.w = 0
+			next = append(next, k)
+		}
+		// add new sub-clusters
+		var added []int
+		for a := r.Range(0, 2); a > 0; a-- {
+			nm := pool[r.Intn(len(pool))]
+			dup := false
+			for _, s := range next {
+				if s.name == nm {
+					dup = true
+				}
+			}
+			if dup || has(nm) {
+				continue
+			}
+			next = append(next, sc{name: nm})
+			added = append(added, len(next)-1)
+		}
+		// weights: single mode (exactly one positive) half of the time
+		if r.Bool() {
+			k := r.Intn(len(next))
+			next[k].w = r.Range(1, 100)
+			class = "reload-single"
+		} else {
+			for k := range next {
+				if r.Chance(2, 3) {
+					next[k].w = r.Range(1, 100)
+				} else if r.Chance(1, 4) {
+					next[k].w = -1
+				}
+			}
+			next[r.Intn(len(next))].w = r.Range(1, 100)
+		}
+		gl := hv.L{}
+		// conf listed in random order
+		perm := make([]int, len(next))
+		for k := range perm {
+			perm[k] = k
+		}
+		for a := len(perm) - 1; a > 0; a-- {
+			b := r.Intn(a + 1)
+			perm[a], perm[b] = perm[b], perm[a]
+		}
+		for _, k := range perm {
+			gl = append(gl, hv.L{hv.S(next[k].name), hv.I(next[k].w)})
+		}
+		ops = append(ops, hv.L{hv.I(3), gl})
+		if r.Chance(1, 3) {
+			bal(r.Range(1, 2)) // new sub-clusters still without backends
+		}
+		for _, k := range added {
+			nb := r.Range(0, 2)
+			bl := hv.L{}
+			for j := 0; j < nb; j++ {
+				bl = append(append(hv.L{}, bl...), hv.L{hv.I(j), hv.I(r.Range(1, 3))})
+				ops = append(ops, hv.L{hv.I(4), hv.S(next[k].name), bl})
+				next[k].ids = append(next[k].ids, j)
+			}
+		}
+		cur = next
+		if r.Chance(1, 3) && len(cur) > 0 {
+			s := cur[r.Intn(len(cur))]
+			if len(s.ids) > 0 {
+				ops = append(ops, hv.L{hv.I(1), hv.S(s.name), hv.I(s.ids[r.Intn(len(s.ids))]), hv.Bool(r.Chance(1, 3))})
+			}
+		}
+		bal(r.Range(2, 4))
+	}
+	return class, hv.L{hv.L{hv.I(mode), hv.I(rmax), hv.I(cross)}, subs, ops}
+}
+
 func gen(r *hv.Rng, i int, tier string) (string, hv.Val) {
 	if r.Chance(1, 5) {
 		return gen9(r)
+	}
+	if r.Chance(1, 4) {
+		return genReload(r)
 	}
 	mode := r.Intn(3)
 	rmax := r.Range(0, 3)
